@@ -154,3 +154,57 @@ func CallDocument(e *Env, en Entry, doc []byte, template interface{}, cfg *confi
 	}
 	return
 }
+
+var configurationDefault = configuration.New()
+
+func ulebLen(v uint64) int {
+	n := 1
+	for v >= 0x80 {
+		v >>= 7
+		n++
+	}
+	return n
+}
+
+// lengthOffsets returns the byte offsets of the length fields the generator
+// knows it wrote into a CBE document (array chunk headers, media type length,
+// identifier lengths, big-int byte counts). It is derived from the event list
+// and the recorded encoder offsets, not from parsing the document.
+func lengthOffsets(d *gen.Doc) []int {
+	if d.Format != gen.CBE {
+		return nil
+	}
+	var out []int
+	for i, ev := range d.Events {
+		start := 0
+		if i > 0 {
+			start = d.Off[i-1]
+		}
+		end := d.Off[i]
+		if end <= start {
+			continue
+		}
+		switch ev.K {
+		case rec.KArray, rec.KStringlikeArray:
+			hdr := end - start - len(ev.S)
+			l := ulebLen(ev.U << 1)
+			if hdr >= 1+l {
+				out = append(out, end-len(ev.S)-l)
+			}
+		case rec.KArrayChunk:
+			more := uint64(0)
+			if ev.B {
+				more = 1
+			}
+			l := ulebLen(ev.U<<1 | more)
+			if end-start >= l && !(end-start == 1 && !ev.B && l == 1 && i > 0 && d.Events[i-1].K == rec.KArrayBegin) {
+				out = append(out, end-l)
+			}
+		case rec.KMedia, rec.KMediaBegin, rec.KMarker, rec.KRecordType:
+			out = append(out, start+2)
+		case rec.KReferenceLocal, rec.KRecord, rec.KCustomBinary, rec.KCustomBegin, rec.KBigInt:
+			out = append(out, start+1)
+		}
+	}
+	return out
+}
